@@ -395,7 +395,14 @@ fn run_probe(case: &Json) -> Json {
             k.hash(&mut s);
             s.finish()
         };
-        obs.push(json!({"eq": x == y, "hash_eq": h(&x) == h(&y)}));
+        // ground truth by another route: both texts parsed to a Value by the Recon parser
+        let pa = parse_recognize::<Value>(a["a"].as_str().unwrap(), false);
+        let pb = parse_recognize::<Value>(a["b"].as_str().unwrap(), false);
+        let val_eq = match (pa, pb) {
+            (Ok(va), Ok(vb)) => json!(va == vb),
+            _ => Json::Null,
+        };
+        obs.push(json!({"eq": x == y, "hash_eq": h(&x) == h(&y), "val_eq": val_eq}));
     }
     json!({"obs": obs})
 }
